@@ -328,6 +328,34 @@ func runC05(w *World, r *Report) {
 	c05OnlyValidatedFlowsLoaded(w, r)
 	c05InternalLimitsAttachedUnderKnownParents(w, r)
 	c05ConnectionEndsNilChecked(w, r)
+	// a processor entry without data (`readCache:` with nothing under it) is a nil *Processor in
+	// the map: it is rejected before validateProcessor dereferences it - by a comparison of the
+	// pointer itself (a nil pointer wrapped into an interface is not == nil)
+	if vf := w.Fn(pkgSCfg, "validateFlowRepresentation"); vf == nil {
+		r.Undec("R2", "validateFlowRepresentation", token.NoPos, "function not found")
+	} else {
+		vp := CallsIn(vf, false, "config.validateProcessor")
+		ok := len(vp) >= 1
+		for _, c := range vp {
+			arg := unhelp(peel(c.Common().Args[0]))
+			guarded := false
+			for _, rel := range relsOfConds(CondsOf(c.Block())) {
+				for _, side := range [][2]ssa.Value{{rel.L, rel.R}, {rel.R, rel.L}} {
+					if !isNilConst(side[1]) || rel.Op != "!=" {
+						continue
+					}
+					_, isPtr := side[0].Type().Underlying().(*types.Pointer)
+					if isPtr && (side[0] == arg || Path(side[0]) == Path(arg)) {
+						guarded = true
+					}
+				}
+			}
+			if !guarded {
+				ok = false
+			}
+		}
+		r.Check(ok, "R2", "validateFlowRepresentation/nil-processor-entry-rejected-first", vf.Pos(), "validateProcessor(p) runs only where the pointer p itself was compared with nil (%d call(s))", len(vp))
+	}
 	// R8 shared interpreter safety conditions
 	r.Borrow(w, runC04, map[string]string{"R3": "R8", "R6": "R8"})
 	r.Min("R1", 5)
@@ -705,6 +733,7 @@ func c05InternalLimitsAttachedUnderKnownParents(w *World, r *Report) {
 		return
 	}
 	n, ok := 0, true
+	var regLookup, attLookup *ssa.Lookup
 	Instrs(f, func(in ssa.Instruction) {
 		mu, isMU := in.(*ssa.MapUpdate)
 		if !isMU || !strings.HasSuffix(Path(mu.Key), "QuotaConfig.ID") && !strings.Contains(Path(mu.Key), "QuotaConfig.QuotaMetaData.ID") {
@@ -717,7 +746,11 @@ func c05InternalLimitsAttachedUnderKnownParents(w *World, r *Report) {
 				return false
 			}
 			l, isL := e.Tuple.(*ssa.Lookup)
-			return isL && l.X == mu.Map && strings.HasSuffix(Path(l.Index), ".ParentID")
+			if isL && l.X == mu.Map && strings.HasSuffix(Path(l.Index), ".ParentID") {
+				regLookup = l
+				return true
+			}
+			return false
 		})
 		if !found {
 			ok = false
@@ -734,7 +767,11 @@ func c05InternalLimitsAttachedUnderKnownParents(w *World, r *Report) {
 						return false
 					}
 					l, isL := e.Tuple.(*ssa.Lookup)
-					return isL && strings.HasSuffix(Path(l.Index), ".ParentID")
+					if isL && strings.HasSuffix(Path(l.Index), ".ParentID") {
+						attLookup = l
+						return true
+					}
+					return false
 				})
 				if !found {
 					ok = false
@@ -742,7 +779,13 @@ func c05InternalLimitsAttachedUnderKnownParents(w *World, r *Report) {
 			}
 		}
 	})
-	r.Check(ok && n == 1 && apps == 1, "R2", "ToSingleQuotaResourceDataList/limit-known-only-under-a-known-parent", f.Pos(), "an internal limit is registered as a possible parent, and attached to the quota, only on the found edge of the lookup of its own ParentID")
+	// one lookup decides both: the limit is attached against the set as it was when the limit
+	// was met in the list (a second look at the finished set would accept a child listed before
+	// its parent, which the loader then hangs under a node that does not exist yet)
+	if regLookup == nil || regLookup != attLookup {
+		ok = false
+	}
+	r.Check(ok && n == 1 && apps == 1, "R2", "ToSingleQuotaResourceDataList/limit-known-only-under-a-known-parent", f.Pos(), "an internal limit is registered as a possible parent, and attached to the quota, only on the found edge of one and the same lookup of its own ParentID")
 }
 
 // c05ConnectionEndsNilChecked: in buildConnection the optional ends of a
